@@ -27,6 +27,8 @@ pub(crate) trait ErasedVariable: Debug + NotObserver + KindTrait {
     fn id(&self) -> NodeId;
     fn break_rc_cycle(&self);
     fn set_at(&self) -> StabilisationNum;
+    #[cfg(cormacrelf_incremental_rs_verif)]
+    fn verif_dump(&self) -> String;
 }
 
 impl<T: Value> ErasedVariable for Var<T> {
@@ -46,6 +48,28 @@ impl<T: Value> ErasedVariable for Var<T> {
     }
     fn set_at(&self) -> StabilisationNum {
         self.set_at.get()
+    }
+    #[cfg(cormacrelf_incremental_rs_verif)]
+    fn verif_dump(&self) -> String {
+        let value = match self.value.try_borrow() {
+            Ok(v) => format!("{:?}", &*v),
+            Err(_) => "?borrowed".to_string(),
+        };
+        let pending = match self.value_set_during_stabilisation.try_borrow() {
+            Ok(v) => match &*v {
+                Some(v) => format!("{:?}", v),
+                None => "-".to_string(),
+            },
+            Err(_) => "?borrowed".to_string(),
+        };
+        let linked = self.node.try_borrow().map_or(true, |n| n.is_some());
+        format!(
+            "set_at=@{} value={} pending={} linked={}",
+            self.set_at.get().0,
+            value,
+            pending,
+            linked as u8
+        )
     }
 }
 
